@@ -1,5 +1,6 @@
 import NasdaqModel.Driver.Sexp
 import NasdaqModel.Model.GenHistory
+import NasdaqModel.Witness.C17
 /-
 Line protocol for Model/GenHistory.lean.
 
@@ -123,6 +124,25 @@ def chunkTo : Chunk → Sexp
 def fsTo (fs : FS) : Sexp :=
   .list (fs.map fun e => .list [dirTo e.1.1, ofNats e.1.2, .list (e.2.map chunkTo)])
 
+/-! events back to the request syntax (for `witness C17`) -/
+def boolTo (b : Bool) : Sexp := .atom (if b then "true" else "false")
+def optsTo (o : GenOpts) : Sexp := .list [ofNats o.app, ofNats o.pfx, boolTo o.init, dirTo o.dir]
+partial def treeTo : GTree → Sexp
+  | .mk n f ks => .list [nat n, ofNats f, .list (ks.map treeTo)]
+def evTo : Ev → Sexp
+  | .newProcess => .atom "newproc"
+  | .inv (.soup impl s o) =>
+    .list [.atom "soup", implTo impl, .list [nat s.id, (match s.root with | none => .atom "none" | some r => pairsTo r),
+      ofNats s.uses, ofNats s.msgs], optsTo o]
+  | .inv (.fix s o) =>
+    .list [.atom "fix", .list [nat s.id, nat s.version, ofNats s.fields, ofNats s.msgFields, .list (s.groups.map treeTo),
+      ofNats s.counts], optsTo o]
+  | .inv (.asn1 s pdu pk o) =>
+    .list [.atom "asn1", .list (s.files.map fun f => .list [ofNats f.1, nat f.2]), ofNats pdu, ofNats pk, optsTo o]
+  | .inv (.newProject t name apps) =>
+    .list [.atom "newproj", nat t, ofNats name, .list (apps.map fun a => .list [ofNats a.1, implTo a.2])]
+  | .inv (.userEdit p n) => .list [.atom "edit", dirTo p.1, ofNats p.2, nat n]
+
 def outcomeTo : Except Err Unit → Sexp
   | .ok _ => .atom "ok"
   | .error e => .atom ("err-" ++ e.name)
@@ -153,6 +173,9 @@ def handle (op : String) (args : List Sexp) : Option String :=
     let sem ← semOf sem
     let evs ← evs.mapM evOf
     some ("ok " ++ " ".intercalate ((runOut sem w0 evs).map Sexp.toStr))
+  | "witness", [.atom "C17"] =>
+    some (" ".intercalate (Witness.C17.histories.map fun h =>
+      (Sexp.list (.atom h.1 :: h.2.map evTo)).toStr))
   | "gen.flags", [sem] => do
     let s ← semOf sem
     let m : Mode → String := fun m => match m with | .append => "append" | .truncate => "truncate" | .ifAbsent => "ifAbsent"
